@@ -51,6 +51,10 @@ CLAIMED = {
    text="Shape of IsIANAReserved / IntersectsIANAReserved decided by decision tables (¬global-unicast shortcut, same table, both containment directions) on all abstract cases; the table's 84 CIDR literals are read from the syntax tree and, with the established model, the checker's own interval arithmetic (Go net library as trusted transcription) decides: every special-purpose block of the statement reserved at its first/last address in 4-byte and mapped form, public addresses not, every supernet of every listed / required / shortcut-only block intersects, single-address networks agree with the address test; decision tables of the three lints. Table and monotonicity clauses are complete for all addresses and prefix lengths because prefixes nest or are disjoint.",
    note=TRUST+"net.IP.IsGlobalUnicast / IPNet.Contains / ParseCIDR semantics are used as the model, not verified. The .arpa lint's string parsing is outside the claim.",
    technique="decision-table extraction over go/ssa + constant-table census with checker-side prefix arithmetic", ref="§3 C19"),
+ "C05": dict(level="other",
+   text="Necessary structural conditions, decided for all 377 lints, their helpers and the framework: interprocedural MOD summaries over SSA + VTA call graph (10.8k functions) show no lint method or entry point writes a module-level variable or memory reachable from the linted object (zcrypto's own unexported memo fields excepted); every constructor allocates a fresh instance; every range over a map reachable from a lint is order-insensitive by a recognised form, else reported (two genuine order-dependent loops of multiPurpose are listed as known findings); every use of an I/O / clock / randomness / goroutine API in lint, util and framework packages is in a seven-entry who-may-use table, and imports/modules outside the reviewed list are flagged. Value-level determinism of the trusted libraries and writes through reflect/unsafe are not decided.",
+   note=TRUST+"Aliasing approximated by SSA address roots + callee MOD summaries (no pointer analysis available); assembly callees by a reviewed table (unknown ones are assumed to write their pointer arguments).",
+   technique="interprocedural effect (MOD) analysis over go/ssa with VTA call graph; loop-form classification of map ranges; who-may-use API policy over types.Info.Uses", ref="§3 C05"),
 }
 
 NOT_YET = "check not built yet in this session (see DESIGN.md §3 for the planned static rule)"
